@@ -239,13 +239,9 @@ func collectGround(ts []*Term) *ground {
 		visited[t] = true
 		switch t.Op {
 		case "select":
-			if t.Args[1].Sort.Kind == KBV {
-				addIdx(t.Args[0], t.Args[1])
-			}
+			addIdx(t.Args[0], t.Args[1])
 		case "store":
-			if t.Args[1].Sort.Kind == KBV {
-				addIdx(t, t.Args[1])
-			}
+			addIdx(t, t.Args[1])
 		case "app":
 			for i, a := range t.Args {
 				if a.Closed() {
@@ -378,7 +374,7 @@ func (in *Inst) candidates(q *Term, v *Term, g *ground) []*Term {
 						}
 						if c == nil {
 							add(gi)
-						} else {
+						} else if v.Sort.Kind == KBV {
 							add(BVSub(gi, c))
 						}
 					}
